@@ -24,8 +24,9 @@ def run(ded, repo, tier):
                            'proved' if ok else 'refuted', backend='ast', detail='' if ok else
                            'dict.%s is inherited unchanged: it mutates the dict part without the linked list / capacity check' % meth,
                            model=dict(method=meth)))
-    ded.assume('keys/values are opaque with total, deterministic, side-effect-free ==/hash; the private sentinel _MISSING is never used as a key')
+    ded.assume('keys/values are opaque with total, deterministic, side-effect-free ==/hash')
+    ded.assume('update/|= arguments are opaque mappings or iterables of pairs whose iteration yields a finite sequence and does not touch the cache')
     ded.assume('on_miss is None or a truthy callable that is deterministic in its argument and does not touch the cache (re-entrant on_miss is covered only by the bounded check)')
     ded.assume('single-threaded execution in C02 (C03 treats schedules)')
     ded.trust('builtin dict model: map + ghost size; len(d) == 0 iff d has no key')
-    ded.trust('not under contract (bounded only): LRI.__init__, update, copy, __eq__, __ior__/__or__ closure, iteration order of dict part')
+    ded.trust('not under contract (bounded only): LRI.__init__, copy (contents/order of the copy, source unchanged), __eq__, iteration; for update/|= the proved postcondition is invariant + capacity + counters, the exact contents after a bulk update follow from the per-item __setitem__ contract')
